@@ -340,6 +340,10 @@ def check(ctx, rep):
                    'ResolveRegistry::resume: the lookup, the resolution and the removal of an entry are not inside one region of the registry lock '
                    '(%d lock region(s)): a concurrent response for the same id can interleave' % len(regions))
     c09.check_entry_writers(rep, 'R08.f', core)
+    # R08.g: concurrent callers serialise on the model lock and each one finishes its own work: update takes the model through a BLOCKING
+    # write() (a try_write that gives up leaves the caller's events to "whoever holds the lock", which may be a reader in view())
+    rep.rule('R08.g', 'App::update / App::view take the model through blocking guards of the model lock; update is alone in its region', floor=2)
+    c03.check_model_lock(rep, 'R08.g', 'R08.g', core)
     rep.assume('Arc drop decrements the strong count with Release; an Acquire fence after reading the decremented count synchronises with it')
     rep.assume('user-supplied closures, futures and App::update are outside the lock-order graph')
 
